@@ -166,12 +166,24 @@ func PidOf(m cemi.Message) int {
 // Payload builds the cEMI telegram carrying payload id pid. ind selects L_Data.ind
 // (gateway -> client) instead of L_Data.req.
 func Payload(pid int, ind bool) cemi.Message {
+	// Everything the clients must treat alike varies with the payload id - priority, repeat flag, hop count, source,
+	// destination group, write / response - so that a client that orders, filters or merges telegrams by their
+	// content (a priority queue, a per-destination cache) shows.
+	prio := []cemi.Priority{cemi.PrioLow, cemi.PrioNormal, cemi.PrioUrgent, cemi.PrioSystem}[(pid/3)%4]
+	c1 := cemi.Control1StdFrame | cemi.Control1NoSysBroadcast | cemi.Control1Prio(prio)
+	if (pid/5)%2 == 0 {
+		c1 |= cemi.Control1NoRepeat
+	}
+	cmd := cemi.GroupValueWrite
+	if (pid/7)%3 == 1 {
+		cmd = cemi.GroupValueResponse
+	}
 	ld := cemi.LData{
-		Control1:    cemi.Control1StdFrame | cemi.Control1NoRepeat | cemi.Control1NoSysBroadcast | cemi.Control1Prio(cemi.PrioLow),
-		Control2:    cemi.Control2GroupAddr | cemi.Control2Hops(6),
-		Source:      cemi.NewIndividualAddr3(1, 1, 7),
-		Destination: uint16(cemi.NewGroupAddr3(1, 2, 3)),
-		Data:        &cemi.AppData{Command: cemi.GroupValueWrite, Data: []byte{0, byte(pid >> 8), byte(pid)}},
+		Control1:    c1,
+		Control2:    cemi.Control2GroupAddr | cemi.Control2Hops(uint8(4 + (pid/11)%3)),
+		Source:      cemi.NewIndividualAddr3(1, 1, uint8(7+(pid/2)%5)),
+		Destination: uint16(cemi.NewGroupAddr3(1, 2, uint8(3+pid%4))),
+		Data:        &cemi.AppData{Command: cmd, Data: []byte{0, byte(pid >> 8), byte(pid)}},
 	}
 	if ind {
 		return &cemi.LDataInd{LData: ld}
